@@ -23,6 +23,16 @@ CLAIMS = {
             "Trusted: engine B, bytearray.reverse()/index-store semantics. Elements are integers in [0,255].",
             "abstract interpretation over an abstract buffer (generic element, affine domain) + def-use taint rule",
             "B", "DESIGN.md section 4, C08"),
+    "C04": ("other",
+            "Compositional: (W) what every add_* appends and (R) what every get_* consumes/returns are computed by "
+            "abstract interpretation of the real classes on every path; (M) for each documented API pair the reader's "
+            "pipeline must be the mirror image of the writer's under the inverse table (k-byte prefix<->k-byte decode, "
+            "0xFF padding<->cut at first 0xFF, encode_string<->decode_string with padding inside the encoded part, "
+            "same codec); (N) the codec round trips of C07/C08 and the two-call write histories of C09 are re-run. "
+            "Does NOT decide the cp1252 image claim (codec library).",
+            "Trusted: engines A/B, inverse table in sa/props/c04.py; composition over call sequences rests on C05/C09.",
+            "abstract interpretation of writer and reader + pipeline mirror comparison under an inverse table",
+            "A+B", "DESIGN.md section 4, C04"),
     "C05": ("proof",
             "Per-operation refinement of the real EoReader class against the documented chunked-reading model: every "
             "public operation is interpreted on a symbolic state (any data length/contents, any position, both modes, "
